@@ -20,15 +20,40 @@ def has_rf(t):
     return any(is_rf_leaf(x) for x in walk(t))
 
 
-def quorum_shape(t):
-    """True iff t == rf/2 + 1 (casts ignored)"""
+_PROG = None
+_RET = {}
+
+
+def set_prog(prog):
+    global _PROG
+    _PROG = prog
+
+
+def _helper_return(path):
+    if path not in _RET:
+        from .gate import Classifier
+        _RET[path] = Classifier(_PROG, lambda t: False, lambda t: False).closure_return(path)
+    return _RET[path]
+
+
+def quorum_shape(t, leaf=None):
+    """True iff t == rf/2 + 1 (casts ignored); also through a workspace helper `fn quorum(rf) -> usize { rf / 2 + 1 }`
+    called with the replication factor"""
+    leaf = leaf or is_rf_leaf
     base, off = linear(t)
     base = strip(base)
+    if off == 0 and base[0] == "call" and _PROG is not None and base[1] in _PROG.bodies and len(base[2]) >= 1:
+        hb = _PROG.bodies[base[1]]
+        idx = [i for i, a in enumerate(base[2]) if leaf(strip(a))]
+        if len(idx) == 1 and len(hb.blocks) <= 40:
+            k = idx[0] + 1
+            return quorum_shape(_helper_return(base[1]), leaf=lambda x: isinstance(x, tuple) and x and x[0] == "param" and x[1] == k)
+        return False
     if off != 1:
         return False
     if base[0] == "bin" and base[1] == "Div":
         a, b = strip(base[2]), strip(base[3])
-        if is_rf_leaf(a) and b[0] == "const" and b[2] == 2:
+        if leaf(a) and b[0] == "const" and b[2] == 2:
             return True
     return False
 
@@ -55,6 +80,7 @@ def normalise(op, a, b):
 
 
 def check_all(chk, prog, rule):
+    set_prog(prog)
     n = 0
     for body in prog.bodies.values():
         if ".rs" not in body.file or "/tests/" in body.file:
@@ -91,6 +117,7 @@ def check_all(chk, prog, rule):
 
 def count_gate_dominates(prog, body, block, count_field, ev=None):
     """is `block` dominated by the edge on which <x>.count_field >= rf/2+1 holds?"""
+    set_prog(prog)
     seen = []
     ok = False
     for bi, si, s, op, a, b in comparisons(prog, body, ev):
